@@ -1,6 +1,8 @@
 /-
   CB.Model.Uint — limb chains of `Uint<LIMBS>` / `BoxedUint`: add/sub/neg (src/uint/{add,sub,neg}.rs),
   selection and comparison (src/uint/cmp.rs), as loops over little-endian limb lists.
+  Style rule: results of pair-returning helpers are taken with `.1` / `.2`, never with a destructuring
+  `let (a, b) := …` — the latter makes definitional unfolding (`rfl`, `simp only [f]`) blow up.
 -/
 import CB.Model.Basic
 namespace CB
@@ -8,17 +10,13 @@ namespace CB
 /-- `Uint::adc`: the `while i < LIMBS` loop (both operands have `LIMBS` limbs). -/
 def uadc : List Nat → List Nat → Nat → List Nat × Nat
   | a :: as, b :: bs, c =>
-    let (w, c') := adc a b c
-    let (r, cf) := uadc as bs c'
-    (w :: r, cf)
+    ((adc a b c).1 :: (uadc as bs (adc a b c).2).1, (uadc as bs (adc a b c).2).2)
   | _, _, c => ([], c)
 
 /-- `Uint::sbb`. -/
 def usbb : List Nat → List Nat → Nat → List Nat × Nat
   | a :: as, b :: bs, bw =>
-    let (w, bw') := sbb a b bw
-    let (r, bf) := usbb as bs bw'
-    (w :: r, bf)
+    ((sbb a b bw).1 :: (usbb as bs (sbb a b bw).2).1, (usbb as bs (sbb a b bw).2).2)
   | _, _, bw => ([], bw)
 
 /-- `Uint::select(a, b, c)` limb by limb. -/
@@ -35,33 +33,26 @@ def uone : Nat → List Nat
 /-- `Uint::carrying_neg` loop: `r = !limb + carry` in `WideWord`. -/
 def negLoop : List Nat → Nat → List Nat × Nat
   | a :: as, c =>
-    let r := wnot a + c
-    let (rs, cf) := negLoop as (r / B)
-    (r % B :: rs, cf)
+    ((wnot a + c) % B :: (negLoop as ((wnot a + c) / B)).1, (negLoop as ((wnot a + c) / B)).2)
   | [], c => ([], c)
 
 def carryingNeg (a : List Nat) : List Nat × Nat :=
-  let (r, c) := negLoop a 1
-  (r, fromWordLsb c)
+  ((negLoop a 1).1, fromWordLsb (negLoop a 1).2)
 
 def wrappingNeg (a : List Nat) : List Nat := (carryingNeg a).1
 def wrappingNegIf (a : List Nat) (c : Nat) : List Nat := uselect a (wrappingNeg a) c
 
 def saturatingAdd (a b : List Nat) : List Nat :=
-  let (r, c) := uadc a b 0
-  uselect r (umax a.length) (fromWordLsb c)
+  uselect (uadc a b 0).1 (umax a.length) (fromWordLsb (uadc a b 0).2)
 def wrappingAdd (a b : List Nat) : List Nat := (uadc a b 0).1
 /-- `CheckedAdd`: value and `is_some` mask. -/
 def checkedAdd (a b : List Nat) : List Nat × Nat :=
-  let (r, c) := uadc a b 0
-  (r, fromWordEq c 0)   -- `carry.is_zero()`
+  ((uadc a b 0).1, fromWordEq (uadc a b 0).2 0)   -- `carry.is_zero()`
 def saturatingSub (a b : List Nat) : List Nat :=
-  let (r, bw) := usbb a b 0
-  uselect r (uzero a.length) (fromWordMask bw)
+  uselect (usbb a b 0).1 (uzero a.length) (fromWordMask (usbb a b 0).2)
 def wrappingSub (a b : List Nat) : List Nat := (usbb a b 0).1
 def checkedSub (a b : List Nat) : List Nat × Nat :=
-  let (r, bw) := usbb a b 0
-  (r, fromWordEq bw 0)
+  ((usbb a b 0).1, fromWordEq (usbb a b 0).2 0)
 
 /-- OR of all limbs (`is_nonzero` accumulator). -/
 def orAll : List Nat → Nat
@@ -81,24 +72,19 @@ def ugt (a b : List Nat) : Nat := fromWordMask (usbb b a 0).2
 def ulte (a b : List Nat) : Nat := choiceNot (ugt a b)
 def isOdd (a : List Nat) : Nat := fromWordLsb (a.headD 0 &&& 1)
 
-/-- `Uint::cmp` loop: `rhs.sbb(lhs)` with OR-accumulated difference; returns (diff, borrow). -/
-def cmpLoop : List Nat → List Nat → Nat → Nat → Nat × Nat
-  | a :: as, b :: bs, diff, bw =>
-    let (w, bw') := sbb b a bw
-    cmpLoop as bs (diff ||| w) bw'
-  | _, _, diff, bw => (diff, bw)
-
-/-- `Uint::cmp` as an `Int` in {-1, 0, 1}. -/
+/-- `Uint::cmp`: one pass of `rhs.limbs[i].sbb(lhs.limbs[i], borrow)` whose result limbs are OR-ed into
+    `diff`; modelled as the `sbb` chain plus the OR of its result limbs (the same loop, unfused).
+    Returns an `Int` in {-1, 0, 1}. -/
 def ucmp (a b : List Nat) : Int :=
-  let (diff, bw) := cmpLoop a b 0 0
-  let sgn : Int := ((bw &&& 2 : Nat) : Int) - 1
+  let diff := orAll (usbb b a 0).1
+  let borrow := (usbb b a 0).2
+  let sgn : Int := ((borrow &&& 2 : Nat) : Int) - 1
   ((choiceBit (fromWordNonzero diff) : Nat) : Int) * sgn
 
 /-- `Uint::cmp_vartime`: scan from the most significant limb. Input lists are reversed (MS first). -/
 def cmpVartimeRev : List Nat → List Nat → Int
   | a :: as, b :: bs =>
-    let (v, bw) := sbb a b 0
-    if v ≠ 0 then (if bw ≠ 0 then -1 else 1) else cmpVartimeRev as bs
+    if (sbb a b 0).1 ≠ 0 then (if (sbb a b 0).2 ≠ 0 then -1 else 1) else cmpVartimeRev as bs
   | _, _ => 0
 def ucmpVartime (a b : List Nat) : Int := cmpVartimeRev a.reverse b.reverse
 
